@@ -23,9 +23,9 @@ MUST_REJECT = {
     # variant: minimum number of construction sites confirmed by reading the source
     "InvalidSyncCode": 1, "InvalidBlockSize": 2, "BlockSizeMismatch": 1, "InvalidSampleRate": 1,
     "SampleRateMismatch": 1, "InvalidChannels": 1, "ChannelsMismatch": 1, "InvalidBitsPerSample": 1,
-    "BitsPerSampleMismatch": 1, "InvalidFrameNumber": 1, "Crc8Mismatch": 2, "Crc16Mismatch": 3,
+    "BitsPerSampleMismatch": 1, "InvalidFrameNumber": 3, "Crc8Mismatch": 2, "Crc16Mismatch": 3,
     "InvalidSubframeHeader": 1, "InvalidSubframeHeaderType": 1, "ExcessiveWastedBits": 2,
-    "InvalidCodingMethod": 2, "InvalidPartitionOrder": 2, "InvalidFixedOrder": 1, "InvalidLpcOrder": 1,
+    "InvalidCodingMethod": 2, "InvalidPartitionOrder": 4, "InvalidFixedOrder": 1, "InvalidLpcOrder": 1,
     "InvalidQlpPrecision": 2, "NegativeLpcShift": 2, "ShortBlock": 1, "NonSubsetSampleRate": 1,
     "NonSubsetBitsPerSample": 1,
 }
@@ -168,6 +168,10 @@ def run(ctx, rep):
                   live[0][0].loc(live[0][2]["sp"]) if live else "",
                   "%d construction sites reachable from decode entry points" % len(live),
                   "must-reject class Error::%s has %d live construction sites (confirmed floor %d): a rejecting exit was removed" % (var, len(live), fl))
+
+    from rules import C03, C17
+    C03.frame_number_reader_rules(F, rep, "C05")
+    C17.partition_guard_rules(F, ok, rep, "C05")
 
     # ---- C05.md5 ---------------------------------------------------------------------------
     vb = anchor(F, rep, "C05.md5", "decode::verify_reader")
